@@ -12,8 +12,7 @@
 // abstract form, and the result is what the implementation did: HTTP status, the low_priority
 // label of the request metric, and the sequenced leaf read back from the data tile. The
 // extracted Coq model recomputes the result. Lines starting with mon_ are property monitors
-// evaluated on the implementation alone (result must be "holds"); lines starting with dev_
-// record the known, named deviations from the property (non-acceptable request answered 500).
+// evaluated on the implementation alone (result must be "holds").
 package main
 
 import (
@@ -554,7 +553,7 @@ func (d *driver) finishCase(e *logEnv, c *subCase, now int64, rsp response) {
 	}
 
 	// THE PROPERTY on the implementation alone, from the generator's ground truth: accepted
-	// exactly when acceptable; everything else a client error
+	// exactly when acceptable; everything else a client error (4xx), without exception
 	if c.expectJSON >= 0 && c.expectValid >= 0 && c.wait == "ok" {
 		wantPre := c.poison == 1 || c.poison == 4
 		accept := c.expectJSON == 1 && !c.oversize && c.expectValid == 1 && c.entryExists && c.poison != 4 &&
@@ -565,10 +564,10 @@ func (d *driver) finishCase(e *logEnv, c *subCase, now int64, rsp response) {
 			res = fail(fmt.Sprintf("acceptable submission answered %d: %s", rsp.code, strings.TrimSpace(string(rsp.body))))
 		case !accept && rsp.code == 200:
 			res = fail("non-acceptable submission answered 200")
-		case !accept && rsp.code == 500 && c.oversize:
-			d.emit("dev_5xx|%d|%s|=>|C09-oversize-body-500: a request body of %d bytes (limit 131072) is answered 500 Internal Server Error, not a client error", n, c.desc, len(c.body))
-		case !accept && rsp.code == 500 && c.poison == 4 && c.expectValid == 1:
-			d.emit("dev_5xx|%d|%s|=>|C09-precert-tbs-500: a verified precertificate chain whose TBSCertificate x509.BuildPrecertTBS refuses (two poison extensions) is answered 500 Internal Server Error, not a client error:ep=%s:chain=%s", n, c.desc, c.ep, hxList(raws))
+		case !accept && rsp.code == 500 && c.oversize: // the behaviour before /repo ac90d60
+			res = "FAILS:C09-oversize-body-500: " + fmt.Sprintf("a request body of %d bytes (limit 131072) is answered 500 Internal Server Error, not a client error", len(c.body)) + ":ep=" + c.ep
+		case !accept && rsp.code == 500 && c.poison == 4 && c.expectValid == 1: // before /repo 48383da
+			res = "FAILS:C09-precert-tbs-500: a verified precertificate chain whose TBSCertificate x509.BuildPrecertTBS refuses (two poison extensions) is answered 500 Internal Server Error, not a client error:ep=" + c.ep + ":chain=" + hxList(raws)
 		case !accept && (rsp.code < 400 || rsp.code >= 500):
 			res = fail(fmt.Sprintf("non-acceptable submission answered %d, not a client error: %s", rsp.code, strings.TrimSpace(string(rsp.body))))
 		}
